@@ -82,6 +82,11 @@ def specPrepared (ls : List (Name × List Span3)) : List (Name × List PoorSpan)
         | some l => preparedSpans l.2
         | none => [])
 
+/-- every name once (first-occurrence order), with the sorted distinct spans of ALL the entries of that name -/
+def specPreparedUnion (ls : List (Name × List Span3)) : List (Name × List PoorSpan) :=
+  (dedup (ls.map (·.1)).reverse).reverse.map fun n =>
+    (n, preparedSpans ((ls.filter fun l => decide (l.1 = n)).flatMap (·.2)))
+
 def specDb (toTaxa : Name → List Label → List Taxon) (progs : List Prog) : Option Db :=
   let lab := labelled progs
   let paths := progs.map (·.path)
@@ -92,7 +97,7 @@ def specDb (toTaxa : Name → List Label → List Taxon) (progs : List Prog) : O
       programs := progs.zip lab |>.map fun (p, l) =>
         let taxa := toTaxa l.1 l.2
         (p.path, { timestamp := p.timestamp, source := p.source,
-                   labels := specPrepared (l.2.map fun x => (x.name, x.spans)),
+                   labels := specPreparedUnion (l.2.map fun x => (x.name, x.spans)),
                    taxa := specPrepared (taxa.map fun x => (x.name, x.spans)) })
       labels := specIndex (labelOcc lab)
       taxa := specIndex (taxonOcc (taxaed toTaxa progs))
